@@ -10,6 +10,7 @@ CONSTANTS
   FilterMT = TRUE
   Capped = TRUE
   CapIter = 2
+  CapRule = "passes"
   PropOnly = TRUE
   TolAlg = 10000
   TolVar = 1000
